@@ -24,7 +24,8 @@ EXTRA = {
  "C11": "Also decided: type lowering is form-preserving; the argument vector of one call is handed on whole.",
  "C12": "Also decided: Parser::eof does not depend on the stuck-parser fuel; every grammar loop makes progress (shared with C04).",
  "C13": "A sort counts as canonical only if its key is injective (no lossy function in sort_by_key/sort_by closures).",
- "C14": "Also decided: every package's exports and code are merged unconditionally in both pipelines; one canonical source-file order.",
+ "C14": "Also decided: every package's exports and code are merged unconditionally in both pipelines; one canonical source-file order; "
+        "both pipelines type-check against the imports' environments only; floats in artifacts round-trip (serde_json float_roundtrip).",
  "C15": "Deserialisation sites are searched in the library and in the CLI.",
  "C17": "Also decided: static and dyn call forms are both emitted in effect position; call arguments are type-checked once (a second "
         "pass records the dyn coercion twice).",
